@@ -867,8 +867,19 @@ def classify_landmark(model: Model, func: FuncInfo, n: Node, iter_log: t.Optiona
         return None
     if n.kind != 'cond':
         return None
-    s = unparse(n.ast)
-    names = {model.resolve(x, func.module, func) for x in ast.walk(n.ast) if isinstance(x, (ast.Name, ast.Attribute))}
+    test: ast.AST = n.ast
+    # a local flag bound once to the test (`is_collection = issubclass(...)`): classify the test itself
+    for _i in range(3):
+        inner = test.operand if isinstance(test, ast.UnaryOp) and isinstance(test.op, ast.Not) else test
+        if isinstance(inner, ast.Name):
+            cfg_ = cfg_of(model, func)
+            defs_ = cfg_.reaching().at(n, inner.id) if cfg_.reaching().is_local(inner.id) else []
+            if len(defs_) == 1 and defs_[0].kind == 'assign' and defs_[0].value is not None and not defs_[0].path:
+                test = defs_[0].value
+                continue
+        break
+    s = unparse(test)
+    names = {model.resolve(x, func.module, func) for x in ast.walk(test) if isinstance(x, (ast.Name, ast.Attribute))}
     if s.startswith('issubclass('):
         if 'pane.convert.HasConverter' in names:
             return 'HasConverter'
@@ -882,7 +893,7 @@ def classify_landmark(model: Model, func: FuncInfo, n: Node, iter_log: t.Optiona
             return 'sequence/set'
         if 'builtins.dict' in names or 'typing.Mapping' in names or 'collections.abc.Mapping' in names:
             return 'mapping'
-    if ' in ' in s and isinstance(n.ast, ast.Compare):
+    if ' in ' in s and isinstance(test, ast.Compare):
         if anchors.scalar_table(model) in names:
             return 'scalar table'
         if anchors.args_table(model) in names:
